@@ -127,6 +127,12 @@ def configured_problem(draw, tier, shard, nshards):
 def agree_case(draw, tier, shard=0, nshards=1):
     p = draw(configured_problem(tier, shard, nshards))
     p["perturb"] = draw(st.sampled_from([0.05, 0.2]))
+    # the state the driver hands to the entry point in every block but the first: walkers re-orthonormalised and reconfigured after
+    # the previous block, stored overlaps not refreshed since
+    p["between_blocks"] = draw(st.sampled_from([None, "after-sr-block", "after-nosr-block", "after-nosr-block"]))
+    # weights as dispersed as a long block leaves them (the short blocks affordable here leave them within a few per cent of each other
+    # and the comb would be the identity)
+    p["block_weights"] = [draw(st.floats(0.05, 3.0)) for _ in range(16)]
     return p
 
 
@@ -142,6 +148,22 @@ def agree_body(ctx, case):
     obs = jnp.asarray(np.stack([np.diag(np.arange(P.norb, dtype=float))] * 2))
     tag = case["walker_type"]
     try:
+        if case.get("between_blocks"):
+            from ad_afqmc import config as _config
+
+            if case["between_blocks"] == "after-nosr-block":
+                # without in-block reconfiguration the weights differ, the global comb then really permutes the walkers
+                _, pd0 = sl.entry_point("ad_nosr_norot", smp1, P, hd)(0.0, obs, sl.copy_pd(pd0))
+            else:
+                _, pd0 = smp1.propagate_phaseless(P.ham, hd, P.prop, sl.copy_pd(pd0), P.trial, P.wave_data)
+            pd0 = P.prop.orthonormalize_walkers(pd0)
+            if case["between_blocks"] == "after-nosr-block":
+                bw = np.asarray((list(case["block_weights"]) * (1 + P.nw // 16))[: P.nw], float)
+                pd0["weights"] = pd0["weights"] * jnp.asarray(bw)
+            w_before = np.asarray(pd0["walkers"] if not isinstance(pd0["walkers"], list) else pd0["walkers"][0])
+            pd0 = P.prop.stochastic_reconfiguration_global(pd0, _config.not_MPI().COMM_WORLD)
+            w_after = np.asarray(pd0["walkers"] if not isinstance(pd0["walkers"], list) else pd0["walkers"][0])
+            ctx.count("agree:state-" + str(case["between_blocks"]) + (":walkers-permuted" if not np.array_equal(w_before, w_after) else ":identity-comb"))
         e_plain, pd_plain = smp.propagate_phaseless(P.ham, hd, P.prop, sl.copy_pd(pd0), P.trial, P.wave_data)
         e_plain2, _ = smp.propagate_phaseless(P.ham, hd, P.prop, sl.copy_pd(pd0), P.trial, P.wave_data)
         e_plain1, pd_plain1 = smp1.propagate_phaseless(P.ham, hd, P.prop, sl.copy_pd(pd0), P.trial, P.wave_data)
